@@ -386,10 +386,18 @@ Definition gview_of (s : state) (x : gang) : gview :=
   mkGview (g_init x) (g_strict x) (g_policy x) (g_min x) (g_group x) (g_crd x) (gang_sat s x)
           (g_children x) (g_pending x) (g_waiting x) (g_bound x).
 
-Record sview := mkSview { sv_fw : list Z; sv_gangs : list (Z * gview) }.
+(* [sv_recs]: gangCache.gangGroupInfoMap as (group id, OnceResourceSatisfied of the record);
+   [sv_wire]: per gang, the GangGroupInfo object it points to as (its GangGroupId, Initialized) *)
+Record sview := mkSview {
+  sv_fw : list Z; sv_gangs : list (Z * gview);
+  sv_recs : list (list Z * bool); sv_wire : list (Z * (list Z * bool)) }.
+
+Definition rec_of (s : state) (r : nat) : list Z * bool := (i_key (info_at s r), i_initd (info_at s r)).
 
 Definition view (s : state) : sview :=
-  mkSview (st_fw s) (map (fun kv => (fst kv, gview_of s (snd kv))) (st_gangs s)).
+  mkSview (st_fw s) (map (fun kv => (fst kv, gview_of s (snd kv))) (st_gangs s))
+          (map (fun kr => (fst kr, i_sat (info_at s (snd kr)))) (st_gmap s))
+          (map (fun kv => (fst kv, rec_of s (g_info (snd kv)))) (st_gangs s)).
 
 Notation obs := (out * sview)%type.
 
